@@ -216,6 +216,8 @@ CaseResult run_md(const RunCtx &ctx, TapeReader &t, unsigned size_hint) {
     static const unsigned ckw[] = {3, 2, 1, 1};
     unsigned ctor_kind = (unsigned) t.weighted(ckw);
     if (const std::string *xc = ctx.x("xctor")) ctor_kind = (unsigned) atoi(xc->c_str());
+    bool poison = t.chance(1, 8);
+    if (poison) ctor_kind = 0; // the rejected and the real construction must use the same iterator type
     std::vector<std::pair<Pt4, Pt4>> boxes;
     std::vector<std::string> box_kinds;
     if (c13 || mem) {
@@ -328,6 +330,26 @@ CaseResult run_md(const RunCtx &ctx, TapeReader &t, unsigned size_hint) {
     bool fits32 = true, fits16 = true;
     for (auto &p: pts)
         for (size_t d = 0; d < D; ++d) fits32 &= p[d] <= 0xFFFFFFFFull, fits16 &= p[d] <= 0xFFFFull;
+    // 1 case in 8: a construction that is rejected (one coordinate too wide, placed last so that every valid point is processed first)
+    // immediately precedes the real one, with the same iterator type: a rejected construction must leave nothing behind
+    if (poison) {
+        std::vector<Tuple> bad;
+        for (size_t i = 0; i < pts.size() && i < 64; ++i) {
+            Pt4 q = pts[i];
+            for (size_t d = 0; d < D; ++d) q[d] = cmax - q[d]; // mirrored points: mostly NOT in the real multiset
+            bad.push_back(to_tuple<D, T>(q));
+        }
+        Pt4 wide{0, 0, 0, 0};
+        wide[D - 1] = cmax + 1;
+        bad.push_back(to_tuple<D, T>(wide));
+        try {
+            Index rejected(bad.begin(), bad.end());
+            res.fail("a point with a coordinate too wide for the encoder was accepted");
+            return res;
+        } catch (const std::exception &) {
+        }
+        res.label("after_rejected_construction");
+    }
     std::unique_ptr<Index> idx;
     try {
         if (ctor_kind == 1 && sizeof(T) == 8 && fits32) {
@@ -467,6 +489,12 @@ CaseResult run_md(const RunCtx &ctx, TapeReader &t, unsigned size_hint) {
                 qs.push_back(p);
             }
         }
+        if (poison)
+            for (size_t i = 0; i < pts.size() && i < 64; ++i) {
+                Pt4 q = pts[i];
+                for (size_t d = 0; d < D; ++d) q[d] = cmax - q[d];
+                qs.push_back(q);
+            }
         for (auto &p: qs) {
             if (!encodable(p)) throw HarnessBug("query point not encodable");
             bool want = is_member(p);
